@@ -23,7 +23,7 @@ pub static DEF: PropDef = PropDef {
     level: "exploration",
     total: |t| t.pick(512, 11200),
     run,
-    rule: "record sets of 1..8 names (any printable ASCII other than the space delimiter, upper and lower case, 1..61 characters, incl. names that make the query longer than 80 bytes; one name in three is a near-duplicate of another record: same letters in another case, one character changed, a proper prefix, an extension, a trailing dot) with arbitrary addresses registered at the authoritative server; 1..10 clients each performing a sequence of lookups (first lookup of a name is cold, repeats must be cache hits), all clients concurrently, with 0..8 ms latency jitter so replies overtake each other; the server is told to serve exactly the number of cold queries. Every return value of DnsClient::get_host_by_name is compared with the record; every DNS frame seen by the H4 hook is decoded: a response must echo the identifier and name of the query sent from the port it goes to; between a successful lookup and the end of the following repeats of the same name by the same client the hook must see no new frame from that client. Non-trivial = >=2 clients, >=2 names and >=1 cache hit; distinct by scenario hash.",
+    rule: "record sets of 1..8 names (any printable ASCII other than the space delimiter, upper and lower case, 1..61 characters, incl. names that make the query longer than 80 bytes; one name in three is a near-duplicate of another record: same letters in another case, one character changed, a proper prefix, an extension, a trailing dot) with arbitrary addresses (0.0.0.0, 255.255.255.255, 127.0.0.1, the server's own address and addresses shared by two records over-represented) registered at the authoritative server; 1..10 clients each performing a sequence of lookups (first lookup of a name is cold, repeats must be cache hits), all clients concurrently, with 0..8 ms latency jitter so replies overtake each other; the server is told to serve exactly the number of cold queries. Every return value of DnsClient::get_host_by_name is compared with the record; every DNS frame seen by the H4 hook is decoded: a response must echo the identifier and name of the query sent from the port it goes to; between a successful lookup and the end of the following repeats of the same name by the same client the hook must see no new frame from that client. Non-trivial = >=2 clients, >=2 names and >=1 cache hit; distinct by scenario hash.",
     assumptions: &["only names that have a record are looked up (the statement is about those)", "lookups of one client are sequential; different clients run concurrently"],
     may_exit_process: true,
     watchdog_s: 120,
@@ -104,7 +104,17 @@ fn scenario(env: &Env, k: u64, case: u64, rng: &mut rand::rngs::SmallRng, d: &mu
             gen_name(rng)
         };
         if !names.iter().any(|x| x.0 == nm) && nm != "testserver.com" && nm != "google.com" {
-            names.push((nm, rng.gen()));
+            // arbitrary addresses, with the special ones over-represented: unspecified, limited broadcast,
+            // loopback, the server's own, an address another record already has
+            let addr: u32 = match rng.gen_range(0..10) {
+                0 => 0,
+                1 => 0xFFFF_FFFF,
+                2 => 0x7F00_0001,
+                3 => 0x0103_0307,
+                4 if !names.is_empty() => names[rng.gen_range(0..names.len())].1,
+                _ => rng.gen(),
+            };
+            names.push((nm, addr));
         }
     }
     let n_clients = rng.gen_range(1..=10usize);
